@@ -976,6 +976,8 @@ def fan_pair(rng, req, names):
 
 
 def request_url(req):
+    if req['type'] == 'caps':
+        return '/service?request=GetCapabilities&service=WMS&version=1.1.1'
     if req['type'] == 'map':
         u = ('/service?request=GetMap&service=WMS&version=1.1.1&srs=%s&bbox=%s&width=%d&height=%d&styles=&format=%s&layers=%s'
              % (req['srs'], ','.join(repr(float(v)) for v in req['bbox']), req['size'][0], req['size'][1], req['format'],
@@ -1103,6 +1105,7 @@ def run_app_config(ctx, cfg, reqs, out):
         names = Names()
         query = MapQuery((0, 0, 10, 10), (10, 10), SRS(4326), 'image/png')
         tree = tree_terms(server.root_layer, query, names)
+        out['_server'] = server
         cfg_names = all_names(cfg['tree'])
         srcs_of = leaf_sources(cfg['tree'])
         cache_src = dict(('c%d' % c['id'], c['source']) for c in cfg['caches'])
@@ -1119,6 +1122,9 @@ def run_app_config(ctx, cfg, reqs, out):
             def authorize(service, layers=[], environ=None, query_extent=None, **kw):
                 rec.cb_calls.append((service, list(layers)))
                 extents.append(query_extent)
+                if query_extent is None:
+                    # capabilities: no query extent; the shapes are placed in a fixed frame, all in EPSG:4326
+                    return callback_result(caps_cb(cb), CAPS_FRAME[0], CAPS_FRAME[1])
                 qs, qb = query_extent
                 return callback_result(cb, qs.replace('900913', '3857'), qb)
             env = {} if cb is None else {'mapproxy.authorize': authorize}
@@ -1174,6 +1180,9 @@ def handle_response(ctx, cfg, req, cb, resp, status, rec, up, tree, names, exten
     ctx.case(('app', json.dumps(req, sort_keys=True), json.dumps(cfg, sort_keys=True)), nontrivial,
              {'request': request_url(req), 'callback': None if cb is None else {k: cb[k] for k in ('kind', 'layers', 'limited_to')},
               'status': status})
+    if req['type'] == 'caps':
+        handle_caps(ctx, cfg, req, cb, resp, status, rec, tree, names, out, rep)
+        return
     up_map = sorted(set(i for k, ns in up.log if k == 'map' for i in ns))
     up_fi = [i for k, ns in up.log if k == 'fi' for i in ns]
     feature = {'map': 'map', 'fi': 'featureinfo', 'tile': 'tile'}[req['type']]
@@ -1207,6 +1216,66 @@ def handle_response(ctx, cfg, req, cb, resp, status, rec, up, tree, names, exten
         handle_fi(ctx, cfg, req, cb, resp, status, rec, up_fi, tree, names, extents, out, rep, layer_src_ids)
     else:
         handle_tile(ctx, cfg, req, cb, resp, status, rec, up_map, up_fi, names, extents, out, rep, fi_src)
+
+
+CAPS_FRAME = ('EPSG:4326', [-90.0, -45.0, 90.0, 45.0])
+
+
+def caps_cb(cb):
+    c = json.loads(json.dumps(cb))
+    for g in c['geoms'].values():
+        g['srs'] = None
+    return c
+
+
+def handle_caps(ctx, cfg, req, cb, resp, status, rec, tree, names, out, rep):
+    """WMS GetCapabilities against Auth.wms_capabilities (FilteredRootLayer)"""
+    server = out.get('_server')
+    if server is None or server.root_layer.name is not None:
+        ctx.count('app.caps.skipped-named-root')
+        return
+    if rec.cb_calls and rec.cb_calls[0][0] != 'wms.capabilities':
+        ctx.fail('caps,wrong-service-string', 'callback called with service %r' % (rec.cb_calls[0][0],), rep)
+    if status == 200:
+        import xml.etree.ElementTree as ET
+        try:
+            doc = ET.fromstring(resp.body)
+        except Exception:  # noqa
+            ctx.count('app.caps.unparsable')
+            return
+        listed = [el.find('Name').text for el in doc.iter('Layer') if el.find('Name') is not None]
+        obs = 'CAP_ok %s' % llit([names(n) for n in listed])
+    elif status in (401, 403):
+        listed, obs = [], 'CAP_%d' % status
+    else:
+        ctx.count('app.caps.status=%d' % status)
+        return
+    pairs = []
+    if cb is not None and cb['kind'] == 'partial':
+        from shapely.geometry import Polygon, box
+        from shapely.ops import unary_union
+        fx0, fy0, fx1, fy1 = CAPS_FRAME[1]
+        for g, spec in cb['geoms'].items():
+            poly = unary_union([Polygon([(fx0 + p[0] * (fx1 - fx0), fy0 + p[1] * (fy1 - fy0)) for p in ext],
+                                        [[(fx0 + p[0] * (fx1 - fx0), fy0 + p[1] * (fy1 - fy0)) for p in hr] for hr in holes])
+                                for ext, holes in spec['shape']['polys']])
+            for n, ly in server.layers.items():
+                b = box(*ly.extent.llbbox)
+                i = poly.intersects(b)
+                if poly.buffer(0.5).intersects(b) != i or poly.buffer(-0.5).intersects(b) != i:
+                    ctx.count('app.caps.skipped-borderline')
+                    return
+                if i:
+                    pairs.append((int(g), names(n)))
+        # oracle: a layer whose 'map' entry is missing or false is not listed
+        bad = [n for n in listed if cb['layers'].get(n, {}).get('map') not in ('true', 'truthy')]
+        if bad:
+            ctx.fail('caps,denied-layer-listed', 'layers %r are listed in the capabilities although their map entry is missing '
+                     'or false' % (bad,), rep)
+    out.setdefault('caps_terms', []).append('(%s, %s, %s, (%s))' % (
+        tree, cb_lit(cb, names), llit(pairs, lambda e: '(%d, %d)' % e), obs))
+    out.setdefault('caps_descr', []).append({'stream': 'app', 'case': {'config': cfg, 'requests': [req]}, 'status': status,
+                                              'listed': listed, 'intersecting(geometry,layer)': pairs})
 
 
 def status_tag(status):
@@ -1731,6 +1800,9 @@ TILE_TYPE = 'Z * option cbres * list (list Z) * list (list Z) * tile_out * optio
 TILE_CHECK = ("fun c => let '(n, cb, cont, inter, obs, loaded, alts) := c in "
               "let m := tile_render n cb (inll cont) (inll inter) in "
               "(tile_out_eqb m obs || match m, obs with TO_masked g, TO_masked _ => inll alts g | _, _ => false end) && match loaded with Some b => Bool.eqb (tile_loads m) b | None => true end")
+CAPS_TYPE = 'list wlayer * option cbres * list (Z * Z) * cap_out'
+CAPS_CHECK = ("fun c => let '(tree, cb, pairs, obs) := c in "
+              "cap_out_eqb (wms_capabilities tree cb (fun g n => existsb (fun e : Z * Z => (fst e =? g) && (snd e =? n)) pairs)) obs")
 TFI_TYPE = 'Z * list Z * option cbres * list (list Z) * fi_out'
 TFI_CHECK = ("fun c => let '(n, infos, cb, pin, obs) := c in fi_out_eqb (wmts_featureinfo n infos cb (inll pin)) obs")
 PX_TYPE = 'ropts * list lmeta * column * option bool * px * Z'
@@ -1757,11 +1829,23 @@ def stream_app(ctx, corpus):
     for _ in range(nconf):
         cfg = gen_config(rng)
         reqs = gen_requests(rng, cfg, nreq)
+        # capabilities requests: generated from a checksum of the configuration (the stream of ctx.rng is not touched)
+        import random
+        import zlib
+        r2 = random.Random(zlib.crc32(json.dumps(cfg, sort_keys=True).encode()))
+        cnames = all_names(cfg['tree'])
+        for _k in range(3):
+            cbk = gen_callback(r2, cnames, focus=cnames)
+            if r2.random() < 0.7:
+                bias_callback(r2, cbk, cnames, 'map')
+            reqs.append({'type': 'caps', 'cb': cbk if r2.random() < 0.95 else None})
         run_app_config(ctx, cfg, reqs, out)
     corr(ctx, 'wms_map', 'Auth', MAP_TYPE, out['map_terms'], MAP_CHECK, lambda i: out['map_descr'][i], shard=150, defs=APP_DEFS)
     corr(ctx, 'wms_featureinfo', 'Auth', FI_TYPE, out['fi_terms'], FI_CHECK, lambda i: out['fi_descr'][i], shard=150, defs=APP_DEFS)
     corr(ctx, 'tile_render', 'Auth', TILE_TYPE, out['tile_terms'], TILE_CHECK, lambda i: out['tile_descr'][i], shard=200, defs=APP_DEFS)
     corr(ctx, 'wmts_featureinfo', 'Auth', TFI_TYPE, out['tfi_terms'], TFI_CHECK, lambda i: out['tfi_descr'][i], shard=200, defs=APP_DEFS)
+    corr(ctx, 'wms_capabilities', 'Auth', CAPS_TYPE, out.get('caps_terms', []), CAPS_CHECK, lambda i: out['caps_descr'][i],
+         shard=200, defs=APP_DEFS)
     corr(ctx, 'map_pixels', 'Auth', PX_TYPE, out['px_terms'], PX_CHECK, lambda i: out['px_descr'][i], shard=400, defs=APP_DEFS)
     corr(ctx, 'tile_pixels', 'Auth', TPX_TYPE, out['tpx_terms'], TPX_CHECK, lambda i: out['tpx_descr'][i], shard=400, defs=APP_DEFS)
 
